@@ -93,6 +93,7 @@ type op struct {
 	tag          string             // input class appended to the operation name in status / error-code signatures
 	ktag         string             // input class appended to the operation name in every signature of this step
 	skip         func(p *prog) bool // decided when the step is due: not applicable any more
+	storedSig    string             // when set: all differing stored header fields are one finding <kind>:stored:<storedSig>
 	inherit      []string           // source objects: when their stored state already differs, the result inherits the difference
 	desc         string
 	as           string // "" = root
@@ -133,6 +134,8 @@ type prog struct {
 	addrs     []string
 	versioned bool
 	bigParts  int
+	lastDiffs int
+	logOff    map[string]int64
 	ign       map[string]map[string]bool // object -> response fields whose stored value is known to differ (already reported)
 	ignEver   map[string]map[string]bool // the same, never reset (old versions of the object)
 	exp       map[string]string          // round-trip expectations of P: "policy:<bucket>" etc.
@@ -152,7 +155,7 @@ var proxyEnv = []string{"AWS_EC2_METADATA_DISABLED=true", "AWS_CONFIG_FILE=/dev/
 
 func newProg(c *ev.Ctx, id string, seed int64, extraEnv []string) (*prog, error) {
 	p := &prog{c: c, id: id, r: rand.New(rand.NewSource(seed)), taint: map[string]bool{}, n501: map[string]int{}, n2xx: map[string]int{},
-		first501: map[string]string{}, exp: map[string]string{}, ign: map[string]map[string]bool{}, ignEver: map[string]map[string]bool{}}
+		first501: map[string]string{}, exp: map[string]string{}, ign: map[string]map[string]bool{}, ignEver: map[string]map[string]bool{}, logOff: map[string]int64{}}
 	p.versioned = p.r.Intn(3) == 0
 	cfg := gw.Config{Versioning: p.versioned, Debug: os.Getenv("C18_PROBE") == "edebug"}
 	var err error
@@ -251,6 +254,25 @@ func (p *prog) setTaint(o *op) {
 		p.taint["x:"+o.bucket] = true
 		p.taint["svc"] = true
 	}
+}
+
+// panicNote: a recovered panic the proxy logged while it served the current request (requests of a program are sequential).
+func (p *prog) panicNote() string {
+	b, err := os.ReadFile(p.P.g.LogPath)
+	if err != nil || int64(len(b)) <= p.logOff[p.P.g.LogPath] {
+		return ""
+	}
+	nb := b[p.logOff[p.P.g.LogPath]:]
+	p.logOff[p.P.g.LogPath] = int64(len(b))
+	i := strings.Index(string(nb), "panic: ")
+	if i < 0 {
+		return ""
+	}
+	msg := firstLine(string(nb[i:]))
+	if j := strings.Index(string(nb[i:]), "versitygw/backend/s3proxy."); j >= 0 {
+		msg += " in " + strings.SplitN(firstLine(string(nb[i+j:])), "(0x", 2)[0]
+	}
+	return msg
 }
 
 func (p *prog) violation(sig string, o *op, detail map[string]any) {
@@ -400,6 +422,10 @@ func (p *prog) step(o *op) {
 		if okResp(rp) {
 			p.n2xx[o.kind]++
 		}
+		panicked := ""
+		if rp.Status == 500 {
+			panicked = p.panicNote()
+		}
 		if debug && (rp.Status >= 500 || rp.Status == 403) {
 			if b, err := os.ReadFile(p.P.g.LogPath); err == nil {
 				if len(b) > 1500 {
@@ -454,6 +480,7 @@ func (p *prog) step(o *op) {
 		if judge || partner == nil {
 			vp, vd := mkView(rp, p.P, o.body), mkView(rd, ref, o.body)
 			diffs, msgDiffers := compareViews(vp, vd)
+			p.lastDiffs = len(diffs)
 			if msgDiffers {
 				p.c.Observe("same status and error code, different message text: " + o.kind)
 			}
@@ -481,13 +508,20 @@ func (p *prog) step(o *op) {
 					}
 					sig = kind + o.tag + ":status:" + strings.ReplaceAll(strings.TrimSpace(d.p), " ", "-") + "-vs-" + strings.ReplaceAll(strings.TrimSpace(d.d), " ", "-")
 				}
-				p.violation(sig, o, map[string]any{"proxy": d.p, "reference": d.d, "reference_gateway": ref.name})
+				det := map[string]any{"proxy": d.p, "reference": d.d, "reference_gateway": ref.name}
+				if panicked != "" {
+					det["proxy_log"] = panicked
+				}
+				p.violation(sig, o, det)
 			}
 			if o.mut && len(diffs) > 0 && (diffs[0].field == "status" || diffs[0].field == "error-code") && okResp(rp) != okResp(rd) {
 				p.setTaint(o)
 			}
 		} else if o.mut && okResp(rp) != okResp(rd) {
 			p.setTaint(o)
+		}
+		if o.mut && o.dom == "up" && (judge || partner == nil) && p.lastDiffs > 0 {
+			p.setTaint(o) // the part / upload differs: what is assembled from it differs too (reported here)
 		}
 		if o.mut && o.dom == "up" && rp.Status >= 500 {
 			p.setTaint(o) // a failure report of the proxy says nothing about what the endpoint did (see put:failure-reported-...)
@@ -625,6 +659,9 @@ func (p *prog) verifyStored(o *op, pOK bool) {
 				if p.ign[k][d.field] || p.ign[k][f] {
 					continue
 				}
+				if o.storedSig != "" && !wholeObject[f] && pb.name != "tagging" {
+					f = o.storedSig
+				}
 				p.violation(o.kind+":stored:"+f, o, map[string]any{"proxy": "at the endpoint: " + d.p, "reference": d.d, "key": k, "probe": pb.name})
 				if wholeObject[f] {
 					bad = true
@@ -760,6 +797,7 @@ func (p *prog) restartProxy() {
 		}
 		if before[k] != after[k] {
 			o := &op{kind: name + "-roundtrip", desc: "GET ?" + name + " of " + k + " before and after a restart of the proxy"}
+			p.taint["c:"+strings.SplitN(k, "|", 2)[0]] = true
 			p.violation(name+"-roundtrip:differs-after-restart", o, map[string]any{"proxy": fmt.Sprintf("after: %d %s", after[k].status, short(after[k].body)), "reference": fmt.Sprintf("before: %d %s", before[k].status, short(before[k].body))})
 		}
 	}
@@ -869,7 +907,7 @@ func Run(c *ev.Ctx) int {
 		laneProbe(c, w)
 		return 2
 	}
-	n := c.Pick(20, 400)
+	n := c.Pick(30, 400)
 	rs := c.Rng("programs")
 	type job struct {
 		id   string
@@ -892,8 +930,12 @@ func Run(c *ev.Ctx) int {
 					c.Inconclusive("gateway start: " + firstLine(err.Error()))
 					continue
 				}
+				t0 := time.Now()
 				p.run(24 + p.r.Intn(15))
 				c.Add("programs", 1)
+				if debug {
+					fmt.Printf("## %s took %.1fs\n", j.id, time.Since(t0).Seconds())
+				}
 				if j.id == "prog/0" {
 					c.Sample(map[string]any{"program": j.id, "steps": p.log})
 				}
@@ -926,7 +968,7 @@ func Run(c *ev.Ctx) int {
 	notOfferedMu.Lock()
 	c.Set("compared_by_operation", comparedBy)
 	notOfferedMu.Unlock()
-	return c.Finish("differential: the same generated program (<= 40 steps: buckets, objects in every upload encoding, ranges, copies, tagging, listings with paging chains, multipart incl. part copy, ACL/policy/ownership/versioning, account-scoped requests) runs against the proxy gateway and an identical posix gateway; every operation the proxy answers (not 501) is compared field by field after normalisation; stored effects are read back from the endpoint directly; settings must survive a proxy restart; distinct = (operation, argument class) pairs compared", 60)
+	return c.Finish("differential: the same generated program (<= 40 steps: buckets, objects in every upload encoding, ranges, copies, tagging, listings with paging chains, multipart incl. part copy, ACL/policy/ownership/versioning, account-scoped requests) runs against the proxy gateway and an identical posix gateway; every operation the proxy answers (not 501) is compared field by field after normalisation; stored effects are read back from the endpoint directly; settings must survive a proxy restart; distinct = (operation, argument class) pairs compared", 120)
 }
 
 func firstLine(s string) string {
